@@ -164,6 +164,7 @@ def run(ctx):
             mlines.append(f"{cid} {ty} std (new {U} {T.zlist(q['dim'])} {T.sexp(u['coef'])} {T.sexp(u['const'])} {vb})")
     model = coqbuild.run_model(mlines)
     ctx.log(f"implementation answered {len(impl)}, model answered {len(model)}")
+    ctx.vm_crosscheck(mlines, model)
     bad, disagreements = [], []
     hist, distinct = {}, set()
     for cid, sl, args in cases:
